@@ -22,6 +22,11 @@ def units(tier, seed):
                  [(n, 3) for n in (1, 2, 3, 4, 6, 8)] + [(n, 4) for n in (2, 3, 4)]
     us = [{'name': f'relations {n}x{m}', 'fn': 'unit_rel', 'args': {'n': n, 'm': m},
            'split': 6 if m >= 3 else 0} for n, m in shapes]
+    # more objects than a machine word has bits: structured columns, a few symbolic cells around positions 63..65 / the end
+    wide = [(70, 3, 4)] if tier == 'quick' else [(70, 3, 6), (66, 4, 6), (130, 3, 6), (200, 2, 5)]
+    for n, m, k in wide:
+        us.append({'name': f'relations wide {n}x{m}', 'fn': 'unit_rel', 'args': {'n': n, 'm': m, 'k': k, 'seed': seed},
+                   'split': 4})
     us.sort(key=lambda u: -(u['args']['n'] * 4 ** u['args']['m']))
     return us
 
@@ -94,9 +99,21 @@ def unit_rel(args, prefix=(), max_depth=None):
     from concepts import junctors
     cells = harness.cell_vars(n, m)
     objs, props = harness.names(n, m)
+    if args.get('k'):
+        import random
+        rnd = random.Random(args.get('seed', 0) * 31 + n)
+        # columns: first half / every third object / objects >= 64 only / one object at 64 ...
+        # object 64 (and 129) is the only witness of a truth combination
+        base = [[(i < n // 2, i % 3 == 0, i in (64, 129), i >= 64, i in (1, 65))[j % 5] for j in range(m)] for i in range(n)]
+        cand = [(i, j) for i in sorted({0, 1, 62, 63, 64, 65, 66, n - 2, n - 1, 128, 129} & set(range(n))) for j in range(m)]
+        pos = set(rnd.sample(cand, min(args['k'], len(cand))))
+        cells = [[cells[i][j] if (i, j) in pos else bool(base[i][j]) for j in range(m)] for i in range(n)]
+
+    def zb(x):
+        return x if z3.is_expr(x) else z3.BoolVal(bool(x))
 
     def col(j):
-        return [cells[i][j] for i in range(n)]
+        return [zb(cells[i][j]) for i in range(n)]
 
     def contingent(a):
         return z3.And(z3.Or(*a), z3.Or(*[z3.Not(x) for x in a]))
